@@ -36,8 +36,8 @@ VARIABLES iface,    \* "wsgi" | "asgi"
           sent,     \* WSGI: bytes the server holds (ASGI: <<>>)
           evs,      \* ASGI: the event script (WSGI: <<>>)
           first,    \* ASGI: the first event was pre-loaded by the framework (first_event=)
-          body,     \* Take(Sent, CL): what the application may ever see (fixed at Init from the definitions above)
-          endIdx,   \* ASGI: number of events after which the end of the body is known (fixed at Init)
+          body,     \* Take(Sent, CL): what the application may ever see (fixed at Init: BodyStreamOps!WBody / ABody)
+          endIdx,   \* ASGI: number of events after which the end of the body is known (fixed at Init: BodyStreamOps!AEndIdx)
           budget,   \* bytes that may still be taken from the server
           buf,      \* ASGI: received, not yet returned
           recv,     \* ASGI: events consumed so far (the pre-loaded one included)
